@@ -57,6 +57,21 @@ impl Probe {
         panic!("boom");
     }
 
+    /// records the call, then fails with a CONTRACT error of the given code (no trap): fail2 collides with the
+    /// operators contract's own error codes, fail7 does not
+    pub fn fail2(env: Env, tag: u32) -> Result<(), soroban_sdk::Error> {
+        let mut log: Vec<Val> = env.storage().instance().get(&PKey::Log).unwrap_or(Vec::new(&env));
+        log.push_back((symbol_short!("fail2"), tag).into_val(&env));
+        env.storage().instance().set(&PKey::Log, &log);
+        Err(soroban_sdk::Error::from_contract_error(2))
+    }
+    pub fn fail7(env: Env, tag: u32) -> Result<(), soroban_sdk::Error> {
+        let mut log: Vec<Val> = env.storage().instance().get(&PKey::Log).unwrap_or(Vec::new(&env));
+        log.push_back((symbol_short!("fail7"), tag).into_val(&env));
+        env.storage().instance().set(&PKey::Log, &log);
+        Err(soroban_sdk::Error::from_contract_error(7))
+    }
+
     pub fn log(env: Env) -> Vec<Val> {
         env.storage().instance().get(&PKey::Log).unwrap_or(Vec::new(&env))
     }
@@ -201,6 +216,28 @@ pub mod trapping {
             _amount: i128,
         ) {
             panic!("receiver traps");
+        }
+    }
+}
+
+/// A receiver that fails with a CONTRACT error instead of trapping.
+pub mod erroring {
+    use soroban_sdk::{contract, contractimpl, Address, Bytes, BytesN, Env, String};
+    #[contract]
+    pub struct ErrApp;
+    #[contractimpl]
+    impl ErrApp {
+        pub fn execute_with_interchain_token(
+            _env: Env,
+            _source_chain: String,
+            _message_id: String,
+            _source_address: Bytes,
+            _payload: Bytes,
+            _token_id: BytesN<32>,
+            _token_address: Address,
+            _amount: i128,
+        ) -> Result<(), soroban_sdk::Error> {
+            Err(soroban_sdk::Error::from_contract_error(7))
         }
     }
 }
